@@ -67,6 +67,10 @@ def _parse_model(*, model: Type[T], obj: Any) -> T:
 
 
 def parse_model(*, model: Type[T], obj: Any) -> T:
+    if isinstance(obj, dict) and not all(isinstance(key, str) for key in obj):
+        raise DecodeValidationError(
+            f"1 validation errors for {model.__name__}\nAll keys of the {model.__name__} must be strings."
+        )
     try:
         return _parse_model(model=model, obj=obj)
     except PydanticValidationError as exc:
